@@ -1,6 +1,8 @@
 import Driver.Util
 import Martian.Vdr
 import Martian.VdrFs
+import Martian.VdrBuild
+import Martian.VdrVal
 
 /-! Line-protocol handler for properties C04 / C14 (the VDR model).
 
@@ -153,8 +155,139 @@ def parseFs (s : String) : Option (List FsEnt) :=
       pure { path := p, link := l }
     | _ => none
 
+
+/-! ### the construction of the bookkeeping (Martian/VdrBuild.lean)
+
+Prefix token notation, tokens separated by blanks, names hex-encoded:
+types `P0 P1 U Z`, `A t`, `M t`, `S members` with members `m name t members | e`;
+expressions `c`, `r node out`, `a elems`, `o elems` with elems `k key exp elems | e`,
+`s0 exp` / `s1 exp` (split, array / map mode), `g exp` (merge), `d value disabled`;
+bindings `b exp type bindings | e`; retains `t node out retains | e`;
+trees `N`, `T id bindings retains rest`, `Q id top bindings children ret retains rest`. -/
+
+def parseTy : Nat → List String → Option (Ty × List String)
+  | 0, _ => none
+  | _ + 1, "P0" :: r => some (.prim false, r)
+  | _ + 1, "P1" :: r => some (.prim true, r)
+  | _ + 1, "U" :: r => some (.umap, r)
+  | _ + 1, "Z" :: r => some (.null, r)
+  | _ + 1, "e" :: r => some (.mnil, r)
+  | f + 1, "A" :: r => do let (t, r) ← parseTy f r; pure (.arr t, r)
+  | f + 1, "M" :: r => do let (t, r) ← parseTy f r; pure (.tmap t, r)
+  | f + 1, "S" :: r => do let (t, r) ← parseTy f r; pure (.struct t, r)
+  | f + 1, "m" :: n :: r => do
+    let (t, r) ← parseTy f r
+    let (m, r) ← parseTy f r
+    pure (.mcons n t m, r)
+  | _, _ => none
+
+def parseBExp : Nat → List String → Option (BExp × List String)
+  | 0, _ => none
+  | _ + 1, "c" :: r => some (.const, r)
+  | _ + 1, "e" :: r => some (.nil, r)
+  | _ + 1, "r" :: n :: o :: r => some (.ref n o, r)
+  | f + 1, "a" :: r => do let (e, r) ← parseBExp f r; pure (.arr e, r)
+  | f + 1, "o" :: r => do let (e, r) ← parseBExp f r; pure (.map e, r)
+  | f + 1, "s0" :: r => do let (e, r) ← parseBExp f r; pure (.split false e, r)
+  | f + 1, "s1" :: r => do let (e, r) ← parseBExp f r; pure (.split true e, r)
+  | f + 1, "g" :: r => do let (e, r) ← parseBExp f r; pure (.merge e, r)
+  | f + 1, "d" :: r => do
+    let (v, r) ← parseBExp f r
+    let (d, r) ← parseBExp f r
+    pure (.disabled v d, r)
+  | f + 1, "k" :: k :: r => do
+    let (e, r) ← parseBExp f r
+    let (m, r) ← parseBExp f r
+    pure (.cons k e m, r)
+  | _, _ => none
+
+def parseBindings : Nat → List String → Option (List Binding × List String)
+  | 0, _ => none
+  | _ + 1, "e" :: r => some ([], r)
+  | f + 1, "b" :: r => do
+    let (e, r) ← parseBExp (f + 1) r
+    let (t, r) ← parseTy (f + 1) r
+    let (bs, r) ← parseBindings f r
+    pure ((e, t) :: bs, r)
+  | _, _ => none
+
+def parseRetains : Nat → List String → Option (List (Node × Arg) × List String)
+  | 0, _ => none
+  | _ + 1, "e" :: r => some ([], r)
+  | f + 1, "t" :: n :: a :: r => do
+    let (rs, r) ← parseRetains f r
+    pure ((n, a) :: rs, r)
+  | _, _ => none
+
+def parseTree : Nat → List String → Option (PTree × List String)
+  | 0, _ => none
+  | _ + 1, "N" :: r => some (.nil, r)
+  | f + 1, "T" :: id :: r => do
+    let (ins, r) ← parseBindings (f + 1) r
+    let (ret, r) ← parseRetains (f + 1) r
+    let (rest, r) ← parseTree f r
+    pure (.stage id ins ret rest, r)
+  | f + 1, "Q" :: id :: top :: r => do
+    let (ins, r) ← parseBindings (f + 1) r
+    let (ch, r) ← parseTree f r
+    let (ret, r) ← parseBindings (f + 1) r
+    let (rd, r) ← parseRetains (f + 1) r
+    let (rest, r) ← parseTree f r
+    pure (.pipe id (top == "1") ins ch ret rd rest, r)
+  | _, _ => none
+
+/-- values: `n` null, `x` number/boolean, `s hex` string, `a elems`, `o elems`,
+elems `k hexkey value elems | e` -/
+def parseVal : Nat → List String → Option (Val × List String)
+  | 0, _ => none
+  | _ + 1, "n" :: r => some (.null, r)
+  | _ + 1, "x" :: r => some (.atom, r)
+  | _ + 1, "e" :: r => some (.vnil, r)
+  | _ + 1, "s" :: h :: r => do
+    let b ← pathOfHex h
+    pure (.str (String.ofList b), r)
+  | f + 1, "a" :: r => do let (e, r) ← parseVal f r; pure (.arr e, r)
+  | f + 1, "o" :: r => do let (e, r) ← parseVal f r; pure (.obj e, r)
+  | f + 1, "k" :: k :: r => do
+    let kb ← pathOfHex k
+    let (v, r) ← parseVal f r
+    let (m, r) ← parseVal f r
+    pure (.vcons (String.ofList kb) v m, r)
+  | _, _ => none
+
+def tokens (s : String) : List String := (s.splitOn " ").filter (· != "")
+
+def showTRefs (l : List TRef) : String :=
+  if l.isEmpty then "." else
+  ",".intercalate (sortStrs (l.map fun r => r.1 ++ ":" ++ r.2.1 ++ ":" ++ (if r.2.2 then "1" else "0"))).eraseDups
+
+def showTabs (ts : Tabs) : String :=
+  let keys := (sortStrs (ts.map (·.1))).eraseDups
+  if keys.isEmpty then "." else
+  " ".intercalate (keys.map fun k =>
+    let t := (ts.lookup k).getD {}
+    k ++ "|" ++ showAssoc (t.fileArgs.map fun (a, hs) => (a, hs.map showHolder)) ++ "|" ++ showAssoc t.postNodes)
+
 def handle (op : String) (args : List String) : Option String :=
   match op, args with
+  | "trefs", [e, t] => do
+    let te := tokens e
+    let tt := tokens t
+    let (e, r1) ← parseBExp (te.length + 1) te
+    let (t, r2) ← parseTy (tt.length + 1) tt
+    if !r1.isEmpty || !r2.isEmpty then none
+    pure ((if wellTyped e t then "" else "illtyped ") ++ showTRefs (typedRefs e t))
+  | "names", [v] => do
+    let tv := tokens v
+    let (v, r) ← parseVal (tv.length + 1) tv
+    if !r.isEmpty then none
+    pure (showPaths (v.names.map String.toList).eraseDups)
+  | "build", [tr] => do
+    let tk := tokens tr
+    let (tree, r) ← parseTree (tk.length + 1) tk
+    if !r.isEmpty then none
+    let ops := opsOf tree
+    pure ("wf=" ++ boolStr (wfOps [] [] ops) ++ " " ++ showTabs (build ops))
   | "clean", [p] => do
     let p ← pathOfHex p
     pure (hexOfPath (cleanAbs p))
